@@ -57,3 +57,15 @@ Definition C12_case (prm : sparams) (m : bytes) (rules : list rule_decl) (report
    && list_eqb (list_eqb rstr_eqb) reported
                (report_rules rules (map (fun d => model_scan_text prm d m) decls)),
    0).
+
+(* the same over a fragmented scan (regions with base addresses, any fragmented scan mode): the match
+   vectors are those of `scan_fragmented` *)
+Definition C12_case_frag (prm : sparams) (regions : list fregion) (rules : list rule_decl)
+           (reported : list (list rstr)) (alone_same : bool) : bool * bool * N :=
+  let decls := flat_map (fun r => map sd_decl (snd r)) rules in
+  (list_eqb (list_eqb rstr_eqb) reported
+            (report_rules rules (scan_fragmented prm (map text_matcher decls) regions)),
+   alone_same
+   && list_eqb (list_eqb rstr_eqb) reported
+               (report_rules rules (map (fun d => scan_var_fragmented prm (text_matcher d) regions) decls)),
+   0).
